@@ -5,7 +5,7 @@ claim('C17', 'Proof (all image sizes and bounds in [1, 2^20), all actions/interp
       'and call the documented cv2 primitive per action; over the index maps of cv2.flip / cv2.rotate (assumed per primitive, cross-checked against the real cv2 on every run) each flip is its own inverse and rotcw / rotccw undo each other, for every image size.', '6-C17')
 claim('C16', 'Proof over symbolic metric names, allow-list patterns and values that the real OTelLineageExporter._is_allowed equals the allow predicate of '
       'the statement, that every key export() hands to the lineage backend stems from an allowed metric (none with an empty allow-list), that histograms '
-      'have len(counts) == len(buckets)+1 with numeric fields on pad and truncate paths, and that read_allowlist() defaults to the empty set. '
+      'have len(counts) == len(buckets)+1 with numeric fields on pad and truncate paths for EVERY length of the two lists (lists of symbolic length, pyvc/symlist.py), and that read_allowlist() defaults to the empty set. '
       'Shape-bounded: up to 2 metrics per call, allow-lists of 0..2 (3 thorough) entries. Wiring in client.py is a syntactic anchor.', '6-C16')
 claim('C10', 'Proof by inductive object invariant on the real Frame class (abstract buffer/pixel model): from EVERY frame state satisfying FrameInv '
       '(no image / jpg-only / raw writable or read-only, cached jpg, cached ro views, GRAY/BGR/RGB) each accessor and copy() returns the documented view of the '
@@ -30,7 +30,7 @@ claim('C04', 'Proof on the real sender closures that a publish consumes the requ
       'clients leave the table only by CLOSE or after ZMQ_CONN_TIMEOUT of silence; on the real receiver that at most one prefetch per source is sent per returned set; counting lemma: '
       'publishes to a stalled consumer <= requests it had sent + 1, independent of the stall length. The numeric single-digit bound is conditional on the delay assumption.', '6-C04')
 claim('C05', 'Proof that the publish decision and id of the real ZMQSender.send do not depend on ephemeral clients (no gate, no fast-forward, other records untouched), that a ?? '
-      'source is never sent a request, and that the real ZMQReceiver.recv returns all-or-nothing sets for ephemeral sources, for shapes mixing synchronized, ? and ?? sources.', '6-C05')
+      'source is never sent a request, and that the real ZMQReceiver.recv returns all-or-nothing sets for ephemeral sources, for shapes mixing synchronized, ? and ?? sources; the connections of one receiver reach a publisher under pairwise different client-table keys (real ZMQReceiver.__init__ / Sender.__init__ / Sender.send_push, 1..3 sources incl. the same address twice; rndstr trusted to be collision-free). Next to it a BOUNDED native history search on the real receiver (not counted as proved).', '6-C05')
 claim('C07', 'Proof that a balanced ZMQSender.send publishes all messages of a call on exactly one PUB socket and clears marks only there; balanced-receiver invariant of the real '
       'recv (single id, single active source, other sources unregistered, polled events discarded) gives single-source single-id sets in strictly increasing order; '
       'first hop never prefetches; no-duplicate lemma.', '6-C07')
